@@ -413,4 +413,40 @@ def ftpProcess (o : Oracles) (fs : List Filter) (r : Rec) (u0 : Info) (shape : F
            | some dir => if consultOk o fs dir r false then [.request dir false] else []
            | none => [])
 
+/-! ### records of the links an FTP listing offers (`_add_listing_links` + `ItemSession.add_child_url`) -/
+
+/-- The `level` of the record `_add_listing_links` creates for a listing entry.
+`glob`: the item URL was a glob pattern (`self._glob_pattern` set), then `level = url_record.level`, else `None`;
+a directory entry is added without `level` (`add_child_url` then takes `url_record.level + 1`),
+a file entry with `level=level` (`add_child_url`: `url_record.level + 1 if level is None else level`). -/
+def listingChildLevel (glob isDir : Bool) (itemLevel : Nat) : Nat :=
+  let level : Option Nat := if glob then some itemLevel else none
+  if isDir then itemLevel + 1
+  else match level with
+    | some l => l
+    | none => itemLevel + 1
+
+/-- One listing link: the parent item was a glob URL or not, the entry is a directory or a file, the child URL. -/
+structure ListingStep where
+  parentGlob : Bool
+  isDir : Bool
+  child : Info
+  deriving DecidableEq, Repr
+
+/-- The record `add_child_url` writes for the child of item `item` (record `r`):
+parent = the item URL, root = the item's root or the item URL, not inline, never tried. -/
+def childRecord (r : Rec) (item : Info) (s : ListingStep) : Rec :=
+  { parent := some item
+    root := match r.root with
+      | some t => some t
+      | none => some item
+    level := listingChildLevel s.parentGlob s.isDir r.level
+    inlineLevel := none
+    tryCount := 0 }
+
+/-- The record and URL of the item reached from item `u` (record `r`) along a chain of listing links. -/
+def recordAlong : Rec → Info → List ListingStep → Rec × Info
+  | r, u, [] => (r, u)
+  | r, u, s :: rest => recordAlong (childRecord r u s) s.child rest
+
 end Wpull.Filter
